@@ -544,3 +544,148 @@ def check_fig_name(ctx):
                keyed is not None and keyed[0].endswith('.fingerprint') and
                ref_vals == ['self.fingerprint'] and items_ok,
                at=fres.where())
+
+
+# -------------------------------------------------------------- FIG-ALL ---
+
+def _at_least_one(expr):
+    """True: the integer expression is >= 1 whatever its operands (non-
+    negative sizes); False: it can be 0; None: unknown."""
+    if isinstance(expr, ast.Constant) and isinstance(expr.value, int):
+        return expr.value >= 1
+    if isinstance(expr, ast.Call) and call_name(expr) == 'max' and any(
+            isinstance(a, ast.Constant) and isinstance(a.value, int) and
+            a.value >= 1 for a in expr.args):
+        return True
+    if isinstance(expr, ast.BoolOp) and isinstance(expr.op, ast.Or) and \
+            isinstance(expr.values[-1], ast.Constant) and isinstance(
+                expr.values[-1].value, int) and expr.values[-1].value >= 1:
+        return True
+    if isinstance(expr, ast.BinOp) and isinstance(expr.op, ast.Add) and any(
+            isinstance(s, ast.Constant) and isinstance(s.value, int) and
+            s.value >= 1 for s in (expr.left, expr.right)):
+        return True
+    if isinstance(expr, ast.BinOp) and isinstance(expr.op, (ast.FloorDiv,
+                                                            ast.Sub,
+                                                            ast.Mod)):
+        return False
+    if isinstance(expr, ast.Call) and call_name(expr) in ('int', 'round',
+                                                          'floor'):
+        return False if expr.args and isinstance(
+            expr.args[0], ast.BinOp) and isinstance(
+                expr.args[0].op, ast.Div) else None
+    return None
+
+
+def check_fig_all(ctx):
+    """"every referenced figure exists": FormattedRst.write hands EVERY
+    collected plot to the figure writer, in the sequential branch (a loop
+    over the items) and in the parallel one (Pool.map over the same items).
+    A chunksize that can be 0 (len(items) // n_workers with fewer figures
+    than workers) makes Pool.map return at once without calling the writer:
+    the pages reference figures that were never written, silently."""
+    program = ctx.program
+    write = program.func(f'{RST}:FormattedRst.write')
+    program.consulted.add(write.module.relpath)
+    defs = {}
+    for node in walk_local(write.node):
+        if isinstance(node, ast.Assign) and len(node.targets) == 1 and \
+                isinstance(node.targets[0], ast.Name):
+            defs.setdefault(node.targets[0].id, []).append(node.value)
+    items = [name for name, vals in defs.items()
+             if any('self.plots' in txt(v) for v in vals)]
+    n = 0
+    for call in [c for c in ast.walk(write.node) if isinstance(c, ast.Call)]:
+        cname = call_name(call)
+        if cname in ('map', 'imap', 'imap_unordered', 'map_async',
+                     'starmap') and len(call.args) >= 2 and \
+                'writer' in txt(call.args[0]):
+            n += 1
+            over = txt(call.args[1])
+            ctx.decide('FIG-ALL', write,
+                       f'write: {txt(call)[:60]} covers every plot',
+                       over in items, at=write.where(call),
+                       detail={'iterates_over': over, 'plots': items})
+            chunk = next((k.value for k in call.keywords
+                          if k.arg == 'chunksize'), None)
+            if chunk is None and len(call.args) >= 3:
+                chunk = call.args[2]
+            if chunk is not None:
+                expr = chunk
+                if isinstance(expr, ast.Name) and len(
+                        defs.get(expr.id, [])) == 1:
+                    expr = defs[expr.id][0]
+                ok = _at_least_one(expr)
+                ctx.decide('FIG-ALL', write,
+                           f'write: chunksize={txt(expr)[:40]} is at least 1',
+                           ok, at=write.where(call),
+                           detail=None if ok else
+                           'with chunksize 0 Pool.map builds no task and '
+                           'returns at once: no figure is written (fewer '
+                           'figures than workers), no error is raised')
+    for loop in [l for l in walk_local(write.node)
+                 if isinstance(l, ast.For)]:
+        if any('writer' in txt(c.func) for s_ in loop.body
+               for c in ast.walk(s_) if isinstance(c, ast.Call)):
+            n += 1
+            ctx.decide('FIG-ALL', write,
+                       f'write: sequential loop over {txt(loop.iter)[:40]} '
+                       f'covers every plot', txt(loop.iter) in items,
+                       at=write.where(loop))
+    ctx.floor('FIG-ALL', n, 2, 'figure-writing branches of '
+                               'FormattedRst.write')
+
+
+# --------------------------------------------------------- HEADER-DEPTH ---
+
+def check_header_depth(ctx):
+    """RstFormatter.header knows len(HEADER_CHARS) levels and raises beyond.
+    The levels are consumed by the SECTIONS: a section at tree depth k gets
+    the header of depth k = len(tree), so trees of len(HEADER_CHARS) levels
+    are the deepest that can be written.  A header asked at len(tree) + 1
+    (e.g. one per result, "one level below its section") makes the
+    formatting of a result held by a deepest-level section raise ValueError:
+    that report is no longer written at all."""
+    program = ctx.program
+    rst = program.cls(f'{RST}:Rst')
+    program.consulted.add(rst.module.relpath)
+    n = 0
+    for meth in rst.methods.values():
+        for call in calls_in(meth.node):
+            if call_name(call) != 'header' or len(call.args) < 2:
+                continue
+            depth = call.args[1]
+            exprs = [(meth, depth)]
+            if isinstance(depth, ast.Name) and depth.id in meth.params:
+                exprs = []
+                for other in rst.methods.values():
+                    for sub in calls_in(other.node):
+                        if call_name(sub) != meth.name:
+                            continue
+                        for kwd in sub.keywords:
+                            if kwd.arg == depth.id:
+                                exprs.append((other, kwd.value))
+                        pos = meth.params.index(depth.id) - 1
+                        if 0 <= pos < len(sub.args):
+                            exprs.append((other, sub.args[pos]))
+                if not exprs:
+                    exprs = [(meth, depth)]
+            for where, expr in exprs:
+                n += 1
+                verdict = None
+                if txt(expr) == 'len(tree)' or isinstance(
+                        expr, ast.Constant) and expr.value == 0:
+                    verdict = True
+                elif isinstance(expr, ast.BinOp) and 'len(tree)' in txt(
+                        expr.left) and isinstance(expr.right, ast.Constant):
+                    verdict = isinstance(expr.op, ast.Sub) or (
+                        isinstance(expr.op, ast.Add) and
+                        expr.right.value <= 0)
+                ctx.decide('HEADER-DEPTH', where,
+                           f'{meth.name}: header depth = {txt(expr)[:40]}',
+                           verdict, at=where.where(expr),
+                           detail=None if verdict is not False else
+                           'deeper than the section that holds it: the '
+                           'deepest supported level has no header left, '
+                           'format_report raises and nothing is written')
+    ctx.floor('HEADER-DEPTH', n, 1, 'header() calls of Rst')
